@@ -1,6 +1,7 @@
 package seqdiff
 
 import (
+	"fmt"
 	"math/rand/v2"
 	"strings"
 )
@@ -17,6 +18,7 @@ type Gen struct {
 	queue    []Ev
 	afterShut bool
 	drained  bool
+	nfile    int // the first nfile entries of grants are the entries of the initial state file (InitFile)
 	Stats    map[string]int
 }
 
@@ -25,6 +27,26 @@ type grant struct {
 	name string // hex
 	s    int
 	size *int32
+	lit  string // ev < 0: a hold that came out of the initial state file; its raw key (such keys are referred to by literal)
+}
+
+// ref is the symbolic key pre + (key of gr) + suf.
+func (g *Gen) ref(gr grant, pre, suf string) *KeyRef {
+	if gr.ev < 0 {
+		return &KeyRef{Ref: -1, Lit: hx(pre + gr.lit + suf)}
+	}
+	k := &KeyRef{Ref: gr.ev}
+	if pre != "" {
+		k.Pre = hx(pre)
+	}
+	if suf != "" {
+		k.Suf = hx(suf)
+	}
+	return k
+}
+
+func alnum(c byte) bool {
+	return (c >= '0' && c <= '9') || (c >= 'a' && c <= 'z') || (c >= 'A' && c <= 'Z')
 }
 
 func NewGen(seed uint64, stream uint64, p *Profile) *Gen {
@@ -99,25 +121,60 @@ func (g *Gen) keyFor(x *Exec) (string, *KeyRef) {
 			return name, &KeyRef{Ref: -1, Lit: "6e6f2d737563682d6b6579"}
 		case 2, 3:
 			if len(g.grants) > 0 {
-				// the key of another lock's hold, possibly with the name boundary shifted: hold ("ab",K) attacked as ("a","b"+K)
+				// the key of another lock's hold, possibly with the name boundary shifted: hold ("abc",K) attacked as ("a","bc"+K) or
+				// ("ab","c"+K) (any cut), and — when the name contains a byte that could serve as a separator in some composite key
+				// (":", "/", "|", "-", " ", NUL, ...) — the SEPARATOR form: hold (p+SEP+q, K) attacked as (p, q+SEP+K), so that
+				// p+SEP+(q+SEP+K) = (p+SEP+q)+SEP+K
 				gr := pick(g.r, g.grants)
+				if g.r.IntN(2) == 0 {
+					// prefer a hold whose name contains a possible separator
+					withSep := []grant{}
+					for _, c := range g.grants {
+						cn := unhx(c.name)
+						for i := 1; i < len(cn); i++ {
+							if !alnum(cn[i]) {
+								withSep = append(withSep, c)
+								break
+							}
+						}
+					}
+					if len(withSep) > 0 {
+						gr = pick(g.r, withSep)
+					}
+				}
 				gn := unhx(gr.name)
 				if len(gn) > 1 {
-					return hx(gn[:1]), &KeyRef{Ref: gr.ev, Pre: hx(gn[1:])}
+					seps := []int{}
+					for i := 1; i < len(gn); i++ {
+						if !alnum(gn[i]) {
+							seps = append(seps, i)
+						}
+					}
+					if len(seps) > 0 && g.r.IntN(4) != 0 {
+						i := pick(g.r, seps)
+						g.Stats["badkey:separator-shift"]++
+						return hx(gn[:i]), g.ref(gr, gn[i+1:]+gn[i:i+1], "")
+					}
+					c := 1 + g.r.IntN(len(gn)-1)
+					g.Stats["badkey:boundary-shift"]++
+					return hx(gn[:c]), g.ref(gr, gn[c:], "")
 				}
-				return name, &KeyRef{Ref: gr.ev}
+				return name, g.ref(gr, "", "")
 			}
 			return name, &KeyRef{Ref: -1, Lit: "00"}
 		case 4:
 			if len(g.grants) > 0 {
 				gr := pick(g.r, g.grants)
-				return gr.name, &KeyRef{Ref: gr.ev, Suf: "78"}
+				return gr.name, g.ref(gr, "", "x")
 			}
 			return name, &KeyRef{Ref: -1, Lit: "78"}
 		default:
 			if len(g.grants) > 0 {
 				gr := pick(g.r, g.grants)
 				k := x.keys[gr.ev]
+				if gr.ev < 0 {
+					k = gr.lit
+				}
 				if len(k) > 1 {
 					return gr.name, &KeyRef{Ref: -1, Lit: hx(k[:len(k)-1])}
 				}
@@ -129,7 +186,255 @@ func (g *Gen) keyFor(x *Exec) (string, *KeyRef) {
 	n := len(g.grants)
 	i := n - 1 - g.r.IntN(min(n, 4))
 	gr := g.grants[i]
-	return gr.name, &KeyRef{Ref: gr.ev}
+	if g.nfile > 0 && g.r.IntN(100) < 40 {
+		// keep the holds that came out of the state file in play
+		gr = g.grants[g.r.IntN(g.nfile)]
+	}
+	return gr.name, g.ref(gr, "", "")
+}
+
+// ---------------------------------------------------------------------------------------------------------------------
+// Initial state files (History.InitFile; Model/SeqFile.v). Every (name, key) pair of a generated file is unique (file_wf): the
+// keys are distinct uuid-shaped strings. Classes:
+//   a  consistent (control): every name has one size and at most that many entries
+//   b  a lock listed more often than its size (size 1: 2-3 entries, size n: n+1..n+2), all inside ONE session's list, the
+//      surplus entries followed by / between / after entries of OTHER names of the same list
+//   c  entries of one name with different sizes (1 vs 2) inside one list
+//   d  an entry with an invalid size (0, -1) inside one list
+//   e  the conflict (surplus / size mismatch) spread over SEVERAL sessions: the outcome depends on Go's map order (the model
+//      side tries every order of the sessions)
+//   f  empty file map, sessions with empty lists, alone or next to a list of class a / b
+// b, c, d get 0-2 further sessions with consistent entries of other names, so that the map order does not matter.
+// A file has at most maxFileEntries entries: every restored hold gets the same lease (the default lock timeout), the model side
+// (Seq.advance_loop) explores every order in which leases that end at the same instant fire, and replay keeps one candidate state
+// per order — k restored holds that expire together cost k! candidates.
+const maxFileEntries = 6
+
+func (g *Gen) uuid() string {
+	return fmt.Sprintf("%08x-%04x-%04x-%04x-%012x", g.r.Uint32(), g.r.Uint32()&0xffff, 0x4000|g.r.Uint32()&0x0fff,
+		0x8000|g.r.Uint32()&0x3fff, g.r.Uint64()&0xffffffffffff)
+}
+
+type fileGen struct {
+	g     *Gen
+	names []string         // hex, not yet used as the target of a conflict
+	size  map[string]int32 // consistent names: their size
+	left  map[string]int   // consistent names: capacity not yet listed
+	keys  map[string]bool
+	room  int // entries the file may still get
+}
+
+func (f *fileGen) ent(name string, size int32) FLock {
+	f.room--
+	k := f.g.uuid()
+	for f.keys[k] {
+		k = f.g.uuid()
+	}
+	f.keys[k] = true
+	return FLock{Name: name, Key: hx(k), Size: size}
+}
+
+// target takes a name out of the pool of consistent names (it becomes the subject of a conflict).
+func (f *fileGen) target() (string, bool) {
+	free := []string{}
+	for _, n := range f.names {
+		if _, used := f.size[n]; !used {
+			free = append(free, n)
+		}
+	}
+	if len(free) == 0 {
+		return "", false
+	}
+	t := pick(f.g.r, free)
+	nn := f.names[:0:0]
+	for _, n := range f.names {
+		if n != t {
+			nn = append(nn, n)
+		}
+	}
+	f.names = nn
+	return t, true
+}
+
+// consistent returns up to k entries that can all be restored whatever the order.
+func (f *fileGen) consistent(k int) []FLock {
+	out := []FLock{}
+	for tries := 0; len(out) < k && f.room > 0 && tries < 4*k+4 && len(f.names) > 0; tries++ {
+		n := pick(f.g.r, f.names)
+		if _, ok := f.size[n]; !ok {
+			f.size[n] = pick(f.g.r, []int32{1, 1, 2, 3})
+			f.left[n] = int(f.size[n])
+		}
+		if f.left[n] == 0 {
+			continue
+		}
+		f.left[n]--
+		out = append(out, f.ent(n, f.size[n]))
+	}
+	return out
+}
+
+// layout mixes the entries of the conflict (ts, in their order) with entries of other names.
+func (f *fileGen) layout(ts, others []FLock) []FLock {
+	r := f.g.r
+	switch r.IntN(5) {
+	case 0: // the conflict first, the others behind it
+		return append(append([]FLock{}, ts...), others...)
+	case 1: // alternating
+		out := []FLock{}
+		for i := 0; i < len(ts) || i < len(others); i++ {
+			if i < len(ts) {
+				out = append(out, ts[i])
+			}
+			if i < len(others) {
+				out = append(out, others[i])
+			}
+		}
+		return out
+	case 2: // the others first (nothing follows the last refused entry: control)
+		return append(append([]FLock{}, others...), ts...)
+	case 3: // one other entry, the conflict, the rest
+		if len(others) > 0 {
+			return append(append(append([]FLock{}, others[0]), ts...), others[1:]...)
+		}
+		return ts
+	default: // any interleaving that keeps the order of ts
+		out := []FLock{}
+		i, j := 0, 0
+		for i < len(ts) || j < len(others) {
+			if j >= len(others) || (i < len(ts) && r.IntN(2) == 0) {
+				out = append(out, ts[i])
+				i++
+			} else {
+				out = append(out, others[j])
+				j++
+			}
+		}
+		return out
+	}
+}
+
+// conflict returns the entries of one name that cannot all be restored.
+func (f *fileGen) conflict(kind string) []FLock {
+	r := f.g.r
+	t, ok := f.target()
+	if !ok || f.room < 2 {
+		return nil
+	}
+	ts := []FLock{}
+	switch kind {
+	case "b":
+		n := pick(r, []int32{1, 1, 2, 3})
+		for int(n)+1 > f.room {
+			n--
+		}
+		cnt := int(n) + 1 + r.IntN(2)
+		for i := 0; i < cnt && (f.room > 1 || i <= int(n)); i++ {
+			ts = append(ts, f.ent(t, n))
+		}
+	case "c":
+		s1 := int32(1 + r.IntN(2))
+		ts = append(ts, f.ent(t, s1), f.ent(t, 3-s1))
+		if r.IntN(2) == 0 && f.room > 1 {
+			ts = append(ts, f.ent(t, pick(r, []int32{s1, 3 - s1})))
+		}
+	case "d":
+		bad := pick(r, []int32{0, -1, 0, -1, -2147483648})
+		good := pick(r, []int32{1, 2})
+		switch r.IntN(4) {
+		case 0:
+			ts = append(ts, f.ent(t, bad))
+		case 1:
+			ts = append(ts, f.ent(t, bad), f.ent(t, good))
+		case 2:
+			ts = append(ts, f.ent(t, good), f.ent(t, bad))
+		default:
+			ts = append(ts, f.ent(t, bad), f.ent(t, bad), f.ent(t, good))
+		}
+	}
+	return ts
+}
+
+// InitFile decides whether this history boots on a generated state file and, if so, draws it, registers its entries as holds
+// the later requests may name, and queues the boot (`restart`) and a probe. cfg.File must be on.
+func (g *Gen) InitFile(cfg Cfg) (*[]FSess, string) {
+	if g.p.InitFilePct <= 0 || !cfg.File || g.r.IntN(100) >= g.p.InitFilePct {
+		return nil, ""
+	}
+	f := &fileGen{g: g, size: map[string]int32{}, left: map[string]int{}, keys: map[string]bool{}, room: maxFileEntries}
+	for _, n := range g.p.Names {
+		if n != "" && n != "-" {
+			dup := false
+			for _, m := range f.names {
+				dup = dup || m == n
+			}
+			if !dup {
+				f.names = append(f.names, n)
+			}
+		}
+	}
+	r := g.r
+	cls := pick(r, []string{"a", "a", "b", "b", "b", "b", "b", "b", "c", "c", "c", "d", "d", "d", "e", "e", "e", "f", "f"})
+	lists := [][]FLock{}
+	switch cls {
+	case "a":
+		f.room-- // every entry of such a file is restored
+		for n := 1 + r.IntN(3); n > 0; n-- {
+			lists = append(lists, f.consistent(1+r.IntN(3)))
+		}
+	case "b", "c", "d":
+		ts := f.conflict(cls)
+		if r.IntN(4) == 0 {
+			// a second conflict of any kind in the same list
+			ts = f.layout(ts, f.conflict(pick(r, []string{"b", "c", "d"})))
+		}
+		lists = append(lists, f.layout(ts, f.consistent(1+r.IntN(3))))
+		for n := r.IntN(3); n > 0; n-- {
+			lists = append(lists, f.consistent(r.IntN(3)))
+		}
+	case "e":
+		ts := f.conflict(pick(r, []string{"b", "b", "c"}))
+		ns := 2 + r.IntN(2)
+		parts := make([][]FLock, ns)
+		for i, e := range ts {
+			k := r.IntN(ns)
+			if i < ns {
+				k = i // every session gets one when there are enough
+			}
+			parts[k] = append(parts[k], e)
+		}
+		for _, p := range parts {
+			lists = append(lists, f.layout(p, f.consistent(r.IntN(3))))
+		}
+	case "f":
+		switch r.IntN(4) {
+		case 0: // a file that holds an empty map
+		case 1:
+			for n := 1 + r.IntN(3); n > 0; n-- {
+				lists = append(lists, []FLock{})
+			}
+		case 2:
+			lists = append(lists, []FLock{}, f.consistent(1+r.IntN(3)), []FLock{})
+		default:
+			lists = append(lists, []FLock{}, f.layout(f.conflict("b"), f.consistent(1+r.IntN(2))))
+		}
+	}
+	r.Shuffle(len(lists), func(i, j int) { lists[i], lists[j] = lists[j], lists[i] })
+	out := make([]FSess, 0, len(lists))
+	for _, l := range lists {
+		if l == nil {
+			l = []FLock{}
+		}
+		out = append(out, FSess{Sid: hx(g.uuid()), Locks: l})
+		for _, e := range l {
+			sz := e.Size
+			g.grants = append(g.grants, grant{ev: -1, name: e.Name, s: -1, size: &sz, lit: unhx(e.Key)})
+		}
+	}
+	g.nfile = len(g.grants)
+	g.queue = append(g.queue, Ev{Op: "restart"}, Ev{Op: "probe"})
+	g.Stats["initfile:"+cls]++
+	return &out, cls
 }
 
 // observe updates the generator's view from the trace entry the executor just appended.
